@@ -25,8 +25,8 @@ pub const C02_POSITIONS: usize = 1_500; // x ~30 legal moves = MAKE lines
 pub const C03_POS: usize = 16_000;
 pub const C04_POS: usize = 16_000;
 pub const C05_PLAYOUTS: usize = 60; // x <=300 plies
-pub const C05_TREES: usize = 12; // complete trees, depth 3 quick / 4 thorough
-pub const C05_TREE_MAX_LINES: usize = 6_000; // a tree bigger than this is cut at depth-1
+pub const C05_TREES: usize = 16; // complete trees, depth 3 quick / 4 thorough (thorough: x2 trees)
+pub const C05_TREE_MAX_LINES: usize = 3_000; // roots whose complete tree is bigger are not used (thorough: x8)
 pub const C06_POS: usize = 6_000;
 pub const C06_FENP: usize = 8_000;
 pub const C06_BFEN: usize = 6_000;
@@ -374,7 +374,7 @@ fn c05(cx: &mut Ctx) {
         cx.sink.end_group();
     }
     let depth = if cx.thorough { 4 } else { 3 };
-    let trees = cx.n(C05_TREES);
+    let trees = if cx.thorough { C05_TREES * 2 } else { C05_TREES };
     let cap = C05_TREE_MAX_LINES * if cx.thorough { 8 } else { 1 };
     let mut done = 0;
     let mut tries = 0;
@@ -913,7 +913,7 @@ fn c12(cx: &mut Ctx) {
     let mut goods: Vec<(Board, String)> = Vec::new();
     let mut count = 0usize;
     let roots = cx.corpus.boards.clone();
-    let mut handle = |cx: &mut Ctx, b: &Board, goods: &mut Vec<(Board, String)>| {
+    let handle = |cx: &mut Ctx, b: &Board, goods: &mut Vec<(Board, String)>| {
         let ms = ops::moves_of(b).unwrap_or_default();
         cx.sink.note_position_with(b, &ms);
         cx.sink.count("positions");
@@ -1056,7 +1056,7 @@ fn c14(cx: &mut Ctx) {
     let n = cx.n(C14_PROGRAMS);
     let mut count = 0usize;
     let roots = cx.corpus.boards.clone();
-    let mut one = |cx: &mut Ctx, b: &Board| {
+    let one = |cx: &mut Ctx, b: &Board| {
         let prog = gen_program(&mut cx.rng, b);
         cx.sink.hist("program_len", format!("{:03}", (prog.len() / 20) * 20));
         for o in prog.iter() {
@@ -1174,7 +1174,7 @@ fn pawn_relevant(c: char, s: usize) -> Vec<usize> {
 
 fn c16(cx: &mut Ctx) {
     let noise = if cx.thorough { C16_NOISE_THOROUGH } else { C16_NOISE_QUICK };
-    let mut t = |cx: &mut Ctx, s: String| cx.sink.emit(tables::tbl_s(s));
+    let t = |cx: &mut Ctx, s: String| cx.sink.emit(tables::tbl_s(s));
     for s in 0..64 {
         for name in ["king", "knight", "rookrays", "bishoprays", "up", "down", "left", "right", "uup", "udown", "uleft", "uright", "getrank", "getfile"].iter() {
             t(cx, format!("{} {}", name, s));
